@@ -12,3 +12,4 @@ def run(ck):
     status.r19_6_op_reduction(ck, P)        # C19-R6: the OVER->SRC rewrite of fill_boxes is an opacity simplification too
     factors.r10f_simd_fetchers(ck, P, 'C09-R5')
     opacity.r6_outside_is_transparent(ck, P)
+    factors.r10_composite_bodies(ck, P)      # C02-R10: fast paths registered for alpha-less sources must treat them as opaque in every lane
